@@ -123,9 +123,43 @@ LOSSES = {
     "all-0005-replies-early": (lambda a: (lambda n, t, c, p: "rp" if c == "0005" and t < a * 3600 else None), 50),
     "everything-lost-early": (lambda a: (lambda n, t, c, p: "rp" if t < a * 3600 else None), 50),
     "zone-replies-lost-early": (lambda a: (lambda n, t, c, p: "rp" if c == "000C" and t < a * 3600 else None), 50),
+    # lost REQUESTS: the frame is never transmitted, so not even its echo comes back (the sender retries with a growing echo timeout)
+    "first-k-requests-unsent": (lambda a: (lambda n, t, c, p: "rq" if n < a else None), 50),
+    "requests-unsent-early": (lambda a: (lambda n, t, c, p: "rq" if t < a * 3600 else None), 50),
 }
 LOSS_ARGS = {"none": [0], "first-k-topology-replies": [1, 3, 8, 15], "every-mth-reply": [2, 3, 5], "all-0005-replies-early": [0.01, 0.2, 1.0],
-             "everything-lost-early": [0.01, 0.5, 7.0], "zone-replies-lost-early": [0.02, 0.5, 2.0]}
+             "everything-lost-early": [0.01, 0.5, 7.0], "zone-replies-lost-early": [0.02, 0.5, 2.0],
+             "first-k-requests-unsent": [1, 4, 8, 12, 20], "requests-unsent-early": [0.002, 0.01, 0.2]}
+
+
+def poller_shape():
+    """The model's rounds never end: a failed send must not end an entity's poller.  Read from the source (AST): the send in
+    _Discovery.discover() is fenced against BOTH the protocol's error and its own wait_for time-out, and the poller is an endless loop."""
+    import ast  # noqa: PLC0415
+    import inspect  # noqa: PLC0415
+
+    import ramses_rf.entity_base as eb  # noqa: PLC0415
+
+    tree = ast.parse(inspect.getsource(eb))
+    cls = next((n for n in ast.walk(tree) if isinstance(n, ast.ClassDef) and n.name == "_Discovery"), None)
+    if cls is None:
+        return "class _Discovery not found"
+    fns = {n.name: n for n in ast.walk(cls) if isinstance(n, ast.AsyncFunctionDef)}
+    for name in ("_poll_discovery_cmds", "discover", "send_disc_cmd"):
+        if name not in fns:
+            return f"{name} not found"
+    poll = fns["_poll_discovery_cmds"]
+    loops = [n for n in poll.body if isinstance(n, ast.While) and isinstance(n.test, ast.Constant) and n.test.value is True]
+    if not loops or "await self.discover()" not in ast.unparse(loops[0]) or any(isinstance(n, ast.Break | ast.Return) for n in ast.walk(loops[0])):
+        return "_poll_discovery_cmds is no longer `while True: await self.discover() ...` without break/return"
+    tries = [n for n in ast.walk(fns["send_disc_cmd"]) if isinstance(n, ast.Try) and "async_send_cmd" in ast.unparse(n.body)]
+    if not tries:
+        return "send_disc_cmd: the send is no longer inside a try"
+    caught = {ast.unparse(h.type) if h.type is not None else "*" for h in tries[0].handlers}
+    reraise = any(isinstance(n, ast.Raise) for h in tries[0].handlers for n in ast.walk(h))
+    if not ({"exc.ProtocolError", "TimeoutError"} <= caught or "*" in caught or "Exception" in caught) or reraise:
+        return f"send_disc_cmd fences the send against {sorted(caught)}{' and re-raises' if reraise else ''}: a protocol error or the wait_for time-out would end the poller"
+    return ""
 
 
 def discovery_job(job):
@@ -232,6 +266,8 @@ def run(ctx: Ctx) -> None:
     else:
         ctx.obligation("correspondence:learn", False, "correspondence", "model not built")
 
+    why = poller_shape()
+    ctx.obligation("translator:poller-survives-a-failed-send", not why, "translator", why or "send_disc_cmd catches exc.ProtocolError and TimeoutError, the poller loops for ever")
     # (b) the whole gateway with discovery enabled
     jobs = []
     witness = {"zones": {"01": {"class": "radiator_valve", "actuators": ["04:100001"], "sensor": disc.CTL},
